@@ -13,6 +13,7 @@ import SharkVerif.Model.McSimplex
 import SharkVerif.Model.McBias
 import SharkVerif.Model.McLinear
 import Driver.C16L
+import Driver.C16E
 open SharkVerif.Mc SharkVerif.Gen
 
 def fbits (x : Float) : String := toString x.toBits.toNat
@@ -213,6 +214,10 @@ def sxOp (s : McSx α) (op : String) (a : List Int) : Option (McSx α × String)
     if ds.length != s.b.n * s.b.P then none else
     let arr := ds.toArray
     some (s.addDeltaLinear (fun i p => Scal.ofIntShift (arr.getD (i * s.b.P + p) 0) 0), "")
+  | "xadddeltas", sh :: ds =>
+    if ds.length != s.b.n * s.b.P then none else
+    let arr := ds.toArray
+    some (s.addDeltaLinear (fun i p => Scal.ofIntShift (arr.getD (i * s.b.P + p) 0) sh.toNat), "")
   | "xlabel", [i] => if i.toNat < s.b.n then some (s, s!"label={s.b.labels i.toNat} ") else none
   | "xkkt", [] => some (s, s!"kkt={Scal.render s.checkKKT} ")
   | "xselect", [] => let r := s.selectWorkingSet; some (s, s!"i={r.1} j={r.2.1} viol={Scal.render r.2.2} ")
@@ -258,6 +263,7 @@ structure St where
   xf : Option (McSx Float) := none
   xq : Option (McSx Rat) := none
   ml : C16L.St := {}
+  ep : C16E.St := {}
   nuf : Nat → Row Float := fun _ => Row.empty
   nuq : Nat → Row Rat := fun _ => Row.empty
   xnuf : Nat → Row Float := fun _ => Row.empty
@@ -297,6 +303,9 @@ def parseInts (l : List String) : Option (List Int) := l.mapM String.toInt?
 
 def step (st : St) (line : String) : St × String :=
   let toks := (line.trimAscii.toString.splitOn " ").filter (· ≠ "")
+  match C16E.step { st.ep with ds := st.ml.ds } toks with
+  | some (ep', o) => ({ st with ep := ep' }, o)
+  | none =>
   match C16L.step st.ml toks with
   | some (ml', o) => ({ st with ml := ml' }, o)
   | none =>
@@ -375,6 +384,22 @@ def step (st : St) (line : String) : St × String :=
       let bf' := normalize (bf.performBiasUpdate st.nuf (parseStep a))
       let bq' := normalize (bq.performBiasUpdate st.nuq (parseStep a))
       ({ st with bf := some bf', bq := some bq' }, dumpBox bf' ++ (if sameState bf' bq' then " #rat=ok" else " #rat=diff"))
+    | _, _, _ => (st, "bad-op")
+  | "biassolve" :: rest =>
+    match parseInts rest, st.bf, st.bq with
+    | some [num, shift, maxit, stz], some bf, some bq =>
+      -- Float instance only: the exact (Rat) instance of a whole Rprop run is not computed (the step sizes 0.01·1.2^a·0.5^b make the
+      -- rationals explode); the harness marks the state as inexact from here on, the Rat state is left behind (#rat=diff)
+      let _ := bq
+      let normR : RpropSt Float → RpropSt Float := fun r =>
+        let a1 := mkArr bf.c r.bias; let a2 := mkArr bf.c r.stepsize; let a3 := mkArr bf.c r.prev; let a4 := mkArr bf.c r.step
+        { bias := arrFn a1 0.0, stepsize := arrFn a2 0.0, prev := arrFn a3 0.0, step := arrFn a4 0.0 }
+      let rf := biasSolve normalize normR bf st.nuf bf.c (stz != 0) (fun _ => (0.0 : Float)) (Scal.ofIntShift num shift.toNat) maxit.toNat 300 5000
+      if rf.outOfFuel then (st, "fuel-exhausted") else
+      let code := match rf.stop with | .running => 0 | .accuracy => 1 | .maxIter => 4 | .stuck => 99
+      let bs := ",".intercalate ((List.range bf.c).map fun c => fbits (rf.r.bias c))
+      ({ st with bf := some rf.s },
+       s!"bias=[{bs}] it={rf.iterations} stop={code} acc={fbits rf.s.checkKKT} " ++ dumpBox rf.s ++ " #rat=diff")
     | _, _, _ => (st, "bad-op")
   | "xbiasupd" :: rest =>
     match parseInts rest, st.xf, st.xq with
